@@ -1535,7 +1535,9 @@ impl<'a> Parser<'a> {
                         Value::Constant(ConstantValue::Null(self.empty_token()))
                     }
                 };
-                let span = Span::new(start, self.end_index);
+                // When neither a name, a colon nor a value was consumed, the previous token ends
+                // before `start`: the span of the (empty) argument must not be inverted.
+                let span = Span::new(start, std::cmp::max(start, self.end_index));
                 items.push(Argument {
                     span,
                     name,
